@@ -245,7 +245,14 @@ class ModelsMixin(object):
         return SStr(z3.Concat(*[str_term(p) for p in merged]))
 
     def sseq_concat(self, a, b):
-        self.unsupported("concatenation of symbolic sequences")
+        from .seqs import to_sseq
+        elem = a.elem if isinstance(a, SSeq) else b.elem
+        a2, b2 = to_sseq(self, a, elem), to_sseq(self, b, elem)
+        if a2.struct[0] == "empty":
+            return SSeq(b2.term, elem, b2.struct)
+        if b2.struct[0] == "empty":
+            return SSeq(a2.term, elem, a2.struct)
+        return SSeq(z3.Concat(a2.term, b2.term), elem, ("concat", a2, b2))
 
     def length_of(self, v):
         if isinstance(v, SBytes):
@@ -587,7 +594,8 @@ class ModelsMixin(object):
         if isinstance(a, SSeq) and isinstance(b, list):
             if len(b) == 0:
                 return SBool(z3.Length(a.term) == 0)
-            self.unsupported("comparison of a symbolic sequence with a list")
+            from .seqs import to_sseq
+            return SBool(a.term == to_sseq(self, b, a.elem).term)
         if isinstance(b, SSeq) and isinstance(a, list):
             return self.eq(b, a)
         # different kinds never compare equal
@@ -1386,6 +1394,9 @@ def _m_zip(ctx, args, kwargs):
 
 def _m_enumerate(ctx, args, kwargs):
     start = args[1] if len(args) > 1 else kwargs.get("start", 0)
+    if isinstance(args[0], SSeq):
+        from .seqs import SEnumSeq
+        return SEnumSeq(args[0], start)
     return [(i, x) for i, x in enumerate(ctx.iter_concrete(args[0]), start)]
 
 
